@@ -79,6 +79,8 @@ class SimHelper:
         self.eagains = 0
         self.partial_writes = 0
         self.reads = 0
+        self.split_reads = 0  # reads ending inside a line
+        self.multi_reads = 0  # reads holding several lines
 
     # ---- helper side -----------------------------------------------------
 
@@ -115,6 +117,10 @@ class SimHelper:
             k = max(1, min(k, self.chunk_plan.pop(0)))
         data = bytes(self.out[:k])
         del self.out[:k]
+        if not data.endswith(b'\n'):
+            self.split_reads += 1
+        if data.count(b'\n') > 1:
+            self.multi_reads += 1
         self.readable -= k
         self.procs.rec('proc-read', name=self.name, n=k)
         return data
